@@ -179,3 +179,56 @@ def c07_delete(world, snap, i, recursive):
         if old_c is not None and not isD(old_c) and cont is not old_c:
             out.append(('survivor-container', f'o{xi} lost its container', {}))
     return out
+
+
+# ---- C05 ---------------------------------------------------------------------------------------------------
+
+class Mirror:
+    """An observer-side copy of every feature of every object, driven by notifications only."""
+
+    def __init__(self, world):
+        self.w = world
+        self.state = {}      # (oid, fid) -> list of tokens
+
+    def ensure(self, i):
+        o = self.w.objs[i]
+        for f in self.w.mm.feats_of(self.w.classes.index(o.eClass)):
+            if (i, f.fid) not in self.state:
+                self.state[(i, f.fid)] = [self.w.tok(v) for v in self.w.slot(o, f)]
+
+    def toks(self, t):
+        if t == 'n':
+            return []
+        if t.startswith('['):
+            inner = t[1:-1]
+            return [x for x in inner.split(',') if x] if inner else []
+        return [t]
+
+    def apply(self, notif):
+        who, fid, kind, old, new = notif
+        if who is None or fid is None:
+            return
+        cur = self.state.setdefault((who, fid), [])
+        f = self.w.mm.feats[fid]
+        if kind in ('SET', 'UNSET'):
+            cur[:] = self.toks(new)
+        elif kind in ('ADD', 'ADD_MANY'):
+            for t in self.toks(new):
+                if f.many and f.unique and t in cur:
+                    continue          # a set: adding what is there changes nothing
+                cur.append(t)
+        elif kind in ('REMOVE', 'REMOVE_MANY'):
+            for t in self.toks(old):
+                if t in cur:
+                    cur.remove(t)
+
+    def compare(self):
+        out = []
+        for i, o in enumerate(self.w.objs):
+            for f in self.w.mm.feats_of(self.w.classes.index(o.eClass)):
+                real = [self.w.tok(v) for v in self.w.slot(o, f)]
+                mine = self.state.get((i, f.fid), [])
+                if sorted(real) != sorted(mine):
+                    out.append(('mirror', f'o{i}.f{f.fid} is {real}, the observer reconstructs {mine}',
+                                {'many': f.many, 'unique': f.unique, 'ref': f.ref}))
+        return out
